@@ -227,6 +227,13 @@ class FileSplicer:
         if spec_txt:
             self.ed.insert(src.t(it.body_open).start, spec_txt)
 
+        # ---- vacuity canary (separate run): `assert(false)` at the entry of the fn must FAIL, else its precondition (or the assumptions
+        # in scope) is contradictory and everything below would verify vacuously
+        if getattr(self, 'canary', False) and not getattr(self, 'degrading', False) and it.body_open >= 0 and not any(x.word == 'attr' and 'external_body' in x.text for x in subs):
+            cid = 'C00.canary.%d' % len(self.report.setdefault('canaries', []))
+            self.report['canaries'].append({'id': cid, 'fn': key, 'file': self.fs.path})
+            self.ed.insert(src.t(it.body_open).end, '\n/*@blk*/proof { /*@ob %s*/ assert(false); }/*@endblk*/\n' % cid)
+
         # ---- prologue / epilogue
         for s in subs:
             if s.word == 'prologue':
@@ -1360,7 +1367,7 @@ class FileSplicer:
         self.report['file_rules'].append({'file': self.fs.path, 'rule': 'N15-ghostfield', 'text': '%s.%s (%d literals)' % (sname, fname, n)})
 
 
-def splice(root: str, spec_paths: List[str], contracts_dir: str, unit: str = '', extra_lifts=(), force_drop=()) -> dict:
+def splice(root: str, spec_paths: List[str], contracts_dir: str, unit: str = '', extra_lifts=(), force_drop=(), canary=False) -> dict:
     report = {'functions': [], 'items': [], 'file_rules': [], 'ghost_clauses': []}
     byfile: Dict[str, vspec.FileSpec] = {}
     for sp in spec_paths:
@@ -1383,6 +1390,7 @@ def splice(root: str, spec_paths: List[str], contracts_dir: str, unit: str = '',
     for path, fs in byfile.items():
         fsp = FileSplicer(root, fs, contracts_dir, report)
         fsp.force_drop = set(force_drop)
+        fsp.canary = canary
         fsp.run()
     return report
 
